@@ -343,7 +343,7 @@ func runRoundTrip(c *Ctx, closure bool) {
 		c.stringWriter(c.info("postscript"), rt)
 
 		// ---------------- encoding shortcut
-		c.encodingShortcut(info)
+		c.encodingShortcutX9() // decided on writeEncoding as a whole (ext_x9.go)
 		c.encodingWriter(info)
 
 		// ---- every closepath the encoder writes comes back as a ClosePath (ext_a.go)
@@ -596,111 +596,6 @@ func (c *Ctx) defaultElision(info *types.Info) {
 		}
 	}
 	c.floor("RT-DEFAULTS", 3)
-}
-
-// encodingShortcut: decision table of isStandardEncoding's loop body.
-func (c *Ctx) encodingShortcut(info *types.Info) {
-	fd := c.funcDecl("type1", "", "isStandardEncoding")
-	fname := "type1.isStandardEncoding"
-	var rng *ast.RangeStmt
-	ast.Inspect(fd.Body, func(n ast.Node) bool {
-		if r, ok := n.(*ast.RangeStmt); ok && rng == nil {
-			rng = r
-		}
-		return true
-	})
-	if rng == nil {
-		c.fail("RT-ENCSHORTCUT", fname, "entry loop", fd.Pos(), "no loop over the encoding entries")
-		return
-	}
-	sVar, _ := rng.Value.(*ast.Ident)
-	if sVar == nil {
-		c.fail("RT-ENCSHORTCUT", fname, "entry loop", rng.Pos(), "the loop does not bind the entry")
-		return
-	}
-	bad := ""
-	cells := 0
-	for _, eqStd := range []bool{true, false} {
-		for _, isNotdef := range []bool{true, false} {
-			for _, present := range []bool{true, false} {
-				cells++
-				env := &aenv{info: info, vars: map[types.Object]aval{}}
-				// bind comma-ok variables named in if-inits to `present`
-				ast.Inspect(rng.Body, func(n ast.Node) bool {
-					if ifs, ok := n.(*ast.IfStmt); ok && ifs.Init != nil {
-						if as, ok := ifs.Init.(*ast.AssignStmt); ok && len(as.Lhs) == 2 {
-							if id, ok := as.Lhs[1].(*ast.Ident); ok {
-								env.vars[info.Defs[id]] = aval{isBool: true, b: present}
-							}
-						}
-					}
-					return true
-				})
-				env.hook = func(e ast.Expr) (aval, bool) {
-					be, ok := e.(*ast.BinaryExpr)
-					if !ok || (be.Op != token.EQL && be.Op != token.NEQ) {
-						return aval{}, false
-					}
-					var lhs, rhs ast.Expr = be.X, be.Y
-					if id, ok := rhs.(*ast.Ident); ok && info.ObjectOf(id) == info.ObjectOf(sVar) {
-						lhs, rhs = rhs, lhs
-					}
-					id, ok := lhs.(*ast.Ident)
-					if !ok || info.ObjectOf(id) != info.ObjectOf(sVar) {
-						return aval{}, false
-					}
-					var v bool
-					if s, ok := constStrOf(info, rhs); ok && s == ".notdef" {
-						v = isNotdef
-					} else {
-						v = eqStd
-					}
-					if be.Op == token.NEQ {
-						v = !v
-					}
-					return aval{isBool: true, b: v}, true
-				}
-				var out outcome
-				accepted := true
-				func() {
-					defer func() {
-						if r := recover(); r != nil {
-							if e, ok := r.(evalErr); ok {
-								bad = "loop body not evaluable: " + e.msg
-								return
-							}
-							panic(r)
-						}
-					}()
-					left := env.run(rng.Body.List, true, &out)
-					if left && out.kind == "return" {
-						accepted = false
-					}
-				}()
-				// infeasible: equals the standard name and is .notdef while the standard name is not .notdef — keep all cells, the formula covers them
-				want := eqStd || (isNotdef && !present)
-				if accepted != want && bad == "" {
-					bad = fmt.Sprintf("an entry with (equals the standard name: %v, is .notdef: %v, standard glyph present in the font: %v) is %s, expected %s", eqStd, isNotdef, present, map[bool]string{true: "accepted", false: "refused"}[accepted], map[bool]string{true: "accepted", false: "refused"}[want])
-				}
-			}
-		}
-	}
-	c.check(bad == "", "RT-ENCSHORTCUT", fname, "`StandardEncoding` is written only if every entry equals the standard name, or is .notdef while the standard glyph is absent from the font", rng.Pos(), fmt.Sprintf("decision table over %d cells", cells), "encoding shortcut: "+bad+" — after reading the file back the code would be assigned although the font left it unassigned (or vice versa)")
-	// the standard names come from psenc.StandardEncoding indexed by the code
-	stdAtCode := false
-	stdObj := c.pkg("psenc").Types.Scope().Lookup("StandardEncoding")
-	keyID, _ := rng.Key.(*ast.Ident)
-	ast.Inspect(rng.Body, func(n ast.Node) bool {
-		if ix, ok := n.(*ast.IndexExpr); ok && keyID != nil {
-			if sel, ok := ix.X.(*ast.SelectorExpr); ok && info.ObjectOf(sel.Sel) == stdObj {
-				if id, ok := ix.Index.(*ast.Ident); ok && info.ObjectOf(id) == info.ObjectOf(keyID) {
-					stdAtCode = true
-				}
-			}
-		}
-		return true
-	})
-	c.check(stdAtCode, "RT-ENCSHORTCUT", fname, "compared with psenc.StandardEncoding at the same code", rng.Pos(), "", "entries are not compared with psenc.StandardEncoding[code]")
 }
 
 // ---- C10 specific
